@@ -9,7 +9,12 @@ use crate::prng::{fnv_add, Rng};
 use crate::reader::FaultStats;
 use crate::scenario::SchedSpec;
 use std::cell::RefCell;
-use std::sync::atomic::{AtomicBool, Ordering};
+use std::sync::atomic::{AtomicBool, AtomicU64, Ordering};
+
+/// Signs of life of the simulated system, for the stall watchdog: bumped at
+/// every scheduler event and every time the step-clock callback runs.  Never
+/// read by anything that influences a run.
+pub static PROGRESS: AtomicU64 = AtomicU64::new(0);
 use std::sync::{Arc, Condvar, Mutex, MutexGuard};
 use std::time::Duration;
 
@@ -183,6 +188,7 @@ impl Shared {
 
 impl Inner {
     fn record(&mut self, tid: usize, kind: EventKind, value: u64) {
+        PROGRESS.fetch_add(1, Ordering::Relaxed);
         self.event_no += 1;
         let mut h = fnv_add(self.log_hash, tid as u64);
         h = fnv_add(h, kind as u64);
